@@ -107,7 +107,7 @@ PROPS['C03']['level_note'] += ' ' + TRUST_COMMON
 PROPS.update({
     'C02': _ev(['codec', 'validate'], 'Unbounded proofs that encode_vli appends exactly the Variable Byte Integer of the value (spec function written from OASIS 1.5.5), that the size function equals its length, '
                'and that the PUBLISH / SUBSCRIBE remaining-length and property-length computations equal the wire layouts of the specification with no overflow or truncation. '
-               'The step interpreter (process_byte_slice_encoding, process_encoding_step, Encoder::encode) is proved to append exactly flat(steps) over any number of calls and buffer sizes; for MQTT 3.1.1 the chain is closed: Encoder::reset leaves steps whose flat() is the OASIS 3.1.1 wire image of PUBLISH, SUBSCRIBE, UNSUBSCRIBE, PUBACK/PUBREC/PUBREL/PUBCOMP, PINGREQ, DISCONNECT (step writers, getters and first-byte function proved). CONNECT and the MQTT 5 step writers are bounded (E-B reference decoder, Kani).', design_ref='DESIGN.md 3/C02',
+               'The step interpreter (process_byte_slice_encoding, process_encoding_step, Encoder::encode) is proved to append exactly flat(steps) over any number of calls and buffer sizes; for MQTT 3.1.1 the chain is closed: Encoder::reset leaves steps whose flat() is the OASIS 3.1.1 wire image of PUBLISH, SUBSCRIBE, UNSUBSCRIBE, PUBACK/PUBREC/PUBREL/PUBCOMP, PINGREQ, DISCONNECT (step writers, getters and first-byte function proved). MQTT 5 PUBLISH is proved the same way (flat(steps) == publish5_bytes(packet, alias resolution)). CONNECT and the other MQTT 5 step writers are bounded (E-B reference decoder, Kani).', design_ref='DESIGN.md 3/C02',
                technique='Verus function contracts on the extracted length / size / encode_vli functions against spec functions of the OASIS wire layouts + Kani harnesses of the step encoder (bounded stand-in for byte production)',
                level_note=TRUST_COMMON + ' String byte length is an uninterpreted function blen(); &str-length functions are assumed here and decided by E-K.'),
     'C16': _ev(['validate'], 'Unbounded proofs, in both directions (Ok <=> rules hold), for validate_user_properties, validate_publish_packet_outbound(_internal), '
@@ -120,9 +120,9 @@ PROPS.update({
                'the next min(remaining, dest.len()) payload bytes in order exactly once; and the engine side of the byte hand-over: Encoder::encode appends exactly flat(steps) whatever the buffer sizes (codec unit).', design_ref='DESIGN.md 3/C13', level='exploration',
                technique='bounded executable checks of the real drivers over scripted transports (stand-in) + Verus function contracts on the websocket message cursor and on the encoder step interpreter',
                level_note=TRUST_COMMON + ' tungstenite Message / WebSocket are shims.'),
-    'C17': _ev(['alias', 'protocol'], 'Unbounded proofs for the inbound resolver (empty topic -> bound topic or error; 0 / out-of-range -> error; reset empties), the manual and null outbound resolvers '
+    'C17': _ev(['alias', 'protocol', 'codec'], 'Unbounded proofs for the inbound resolver (empty topic -> bound topic or error; 0 / out-of-range -> error; reset empties), the manual and null outbound resolvers '
                '(skip-topic only for an alias currently bound to exactly that topic; alias in 1..=max; table updated exactly when an alias is sent with its topic), and that the engine resets both at CONNACK. '
-               'The LRU resolver is proved too (alias range, omission only for bound topics, table evolves as the server\'s) under assumed specifications of lru::LruCache; the engine-level coupling through the RefCell and the wire is bounded (E-B).', design_ref='DESIGN.md 3/C17',
+               'The LRU resolver is proved too (alias range, omission only for bound topics, table evolves as the server\'s) under assumed specifications of lru::LruCache; that the chosen alias and the topic omission are exactly what the MQTT 5 PUBLISH encoder puts on the wire is proved in the codec unit; the engine-level coupling through the RefCell is bounded (E-B).', design_ref='DESIGN.md 3/C17',
                technique='Verus function contracts + data-structure invariants (alias tables viewed as abstract alias->topic relations) on the extracted resolver functions and the engine reset at CONNACK',
                level_note=TRUST_COMMON + ' "Table stays in step with the wire" across last-chance validation failures is not decidable by a contract (RefCell behind &self).'),
 })
